@@ -123,6 +123,16 @@ def _(value: Flag):
     return " | ".join(members)
 
 
+@customize_repr
+def _(value: complex):
+    result = real_repr(value)
+    if real_repr(eval(result)) != result:
+        # `-1j` is evaluated to (-0-1j), and "(-0-1j)" to -1j:
+        # numbers with a negative zero can only be created with complex()
+        return f"complex({value.real!r}, {value.imag!r})"
+    return result
+
+
 def sort_set_values(set_values):
     is_sorted = False
     try:
